@@ -86,7 +86,8 @@ def rename (s : NS) (f0 t0 : Name) : NS × R :=
     let kept := s.boxes.filter (fun b => !isUnder f b.1)
     let renamed := moved.map (fun b => (t ++ b.1.drop f.length, b.2))
     if f = inbox then
-      ({ s with boxes := kept ++ [(t, s.inboxId)] ++ renamed, inboxId := s.fresh, fresh := s.fresh + 1 }, .ok)
+      -- RFC 3501 §6.3.5: inferior names of INBOX are unaffected by a rename of INBOX (repaired D44)
+      ({ s with boxes := s.boxes ++ [(t, s.inboxId)], inboxId := s.fresh, fresh := s.fresh + 1 }, .ok)
     else ({ s with boxes := kept ++ renamed }, .ok)
 
 end Pymap.Namespace
